@@ -172,6 +172,28 @@ def r1_cursors(prog, res):
             key = base if c0 == 0 else "%s#%d" % (base, c0)
             if not guarded and tgt["n"] in writes_guarded:
                 guarded = True
+            if not guarded and f.cfg is not None:
+                # a bound test on the cursor that comes before the increment on every path and whose violating branch never reaches the
+                # increment (it ends in abort()/exit(): clang gives such blocks no successor)
+                for y in f.walk():
+                    if y["k"] != "If":
+                        continue
+                    c0 = strip(y["ch"][0])
+                    if c0 is None or c0["k"] != "Binary" or c0.get("op") not in ("<", "<=", ">", ">=") or \
+                            not any(z["k"] == "Ref" and z.get("n") == tgt["n"] for z in walk(c0)) or \
+                            not any(z["k"] == "Ref" and z.get("n") == arr for z in walk(c0)):
+                        continue
+                    then = y["ch"][1]
+                    first = f.first_pos(then) if then is not None else None
+                    cpos = f.first_pos(y["ch"][0])
+                    ipos = f.cfg.locate(x)
+                    if cpos is None or first is None or ipos is None or not f.cfg.dominates(cpos, ipos):
+                        continue
+                    # is the increment reachable from inside the then-branch?
+                    if first == ipos or f.cfg.reaches((first[0], first[1] - 1), ipos):
+                        continue
+                    guarded = True
+                    break
             res.add("R1c.cursor_bound", key, f.where(x), guarded,
                     "increment of `%s` (cursor into %s[%d]) is guarded by a bound test" % (tgt["n"], arr, N) if guarded else
                     "`%s` walks %s[%d] and is incremented without any bound test: nesting deeper than %d writes past the array"
